@@ -295,6 +295,19 @@ def check_log(res, c, tmp):
         res.violation(key + '/read_history/params', 'read %r, logged %r' % (hp, [r[0] for _, r in logged]), c)
     if not same(plain(hc), [plain(r[1]) for _, r in logged], rel):
         res.violation(key + '/read_history/costs', 'read %r, logged %r' % (hc, [r[1] for _, r in logged]), c)
+    # the same log given as an OPEN FILE instead of its path: the same answer, with and without the iterations
+    try:
+        with open(fn) as fo:
+            alt = munge.read_history(fo, iter=True)
+        with open(fn) as fo:
+            alt2 = munge.read_history(fo)
+        ok = (len(alt) == 3 and [tuple(s_) for s_ in (alt[0] or [])] == [tuple(s_) for s_ in (ids or [])]
+              and same(plain(alt[1]), plain(hp), rel) and same(plain(alt[2]), plain(hc), rel) and len(alt2) == 2 and same(plain(alt2[0]), plain(hp), rel))
+    except Exception as e:
+        res.violation(key + '/read_history/readable#file-object', 'raised %r' % (e,), c)
+        return
+    if not ok:
+        res.violation(key + '/read_history/same-answer-from-an-open-file', 'path gave %r, open file gave %r' % ((ids, hp, hc), alt), c)
 
 
 def traj_same(params, X, d, layout):
@@ -355,12 +368,19 @@ def check_files(res, c, tmp):
             continue
         if not same_snap(before, snapshot(m)):
             res.violation(key + '/monitor-unchanged', '%s altered the monitor' % writer.__name__, c)
-        rid, (params, costs) = (out[0], out[1]) if len(out) == 2 else (out[0], out[1:])
-        if not traj_same(params, X, d, layout):
+        try:
+            rid, (params, costs) = (out[0], out[1]) if len(out) == 2 else (out[0], out[1:])
+            ok_p, ok_c = traj_same(params, X, d, layout), same(plain(costs), Y, rel)
+            ok_i = [tuple(t) for t in (rid or [])] == want_ids
+        except Exception as e:      # noqa -- what was read back does not even have the shape of a trajectory
+            res.violation(key + '/readable' + tag, '%s -> %s gave %r, which is not (ids, params, costs): %s: %s'
+                          % (writer.__name__, reader.__name__, out, type(e).__name__, e), c)
+            continue
+        if not ok_p:
             res.violation(key + '/params' + tag, 'read %r, recorded %r' % (params, X), c)
-        if not same(plain(costs), Y, rel):
+        if not ok_c:
             res.violation(key + '/costs' + tag + ktag, 'read %r, recorded %r (k=%r)' % (costs, Y, k), c)
-        if [tuple(t) for t in (rid or [])] != want_ids:
+        if not ok_i:
             res.violation(key + '/ids' + tag, 'read %r, expected %r for ids %r' % (rid, want_ids, ids), c)
 
 
